@@ -487,6 +487,13 @@ def _scn_methods():
         else:
             d, m = A.pl(f.result())
             self.world.ev(side, 'rr_result', uid=uid, data=d, metadata=m)
+        nxt = self.st[uid]['spec'].get('then_start')
+        if nxt is not None and not self.world.frozen:
+            # the application reacts to the outcome by issuing its next request (from the future's callback)
+            for t_ in (nxt if isinstance(nxt, list) else [nxt]):
+                if t_ not in self.st:
+                    self.world.ev(side, 'issued_from_callback', uid=t_, after=uid)
+                    self.start(t_)
 
     def raw_request(self, i, opts=None):
         """The raw peer opens interaction i (its spec's side must be the raw side)."""
